@@ -1,13 +1,13 @@
 package hc
 
-// TranslateExprAuto: Go → Lean translation of single expressions (guard conditions, slice bounds,
+// C20TranslateExpr: Go → Lean translation of single expressions (guard conditions, slice bounds,
 // arguments, header bytes) taken out of functions that as a whole are outside the subset of
 // TranslateFuncs (they work on slices, structs, readers).
 //
 // The expression's free *atoms* become Int parameters a0, a1, … in order of first appearance
 // (left to right), so the emitted definition does not depend on how the Go variables are named:
-//   - identifiers that are neither package constants, local constants (ExprOpt.Locals) nor
-//     translated functions (ExprOpt.Fns),
+//   - identifiers that are neither package constants, local constants (C20ExprOpt.Locals) nor
+//     translated functions (C20ExprOpt.Fns),
 //   - selector expressions that are not constants (m.Bytes, rpcErr.Argument),
 //   - index expressions (b[1]), len(…) calls, method calls without arguments (b.Len(), reader.Total()).
 // Equal source text = same parameter.  Integer conversions are identity, except byte(x)/uint8(x)
@@ -25,22 +25,22 @@ import (
 	"strings"
 )
 
-// ExprOpt configures TranslateExprAuto.
-type ExprOpt struct {
+// C20ExprOpt configures C20TranslateExpr.
+type C20ExprOpt struct {
 	Locals map[string]ast.Expr // local constants / single-assignment locals to substitute by their definition
 	Fns    map[string]string   // callable translated functions: Go name → Lean name
 	Atoms  *[]string           // if non-nil, shared atom table (several expressions with the same parameter list)
 }
 
-type exprRewriter struct {
+type c20ExprRewriter struct {
 	f     *Facts
 	dir   string
-	opt   ExprOpt
+	opt   C20ExprOpt
 	atoms []string
 	depth int
 }
 
-func (r *exprRewriter) atom(src string) ast.Expr {
+func (r *c20ExprRewriter) atom(src string) ast.Expr {
 	for i, a := range r.atoms {
 		if a == src {
 			return &ast.Ident{Name: fmt.Sprintf("a%d", i)}
@@ -50,13 +50,13 @@ func (r *exprRewriter) atom(src string) ast.Expr {
 	return &ast.Ident{Name: fmt.Sprintf("a%d", len(r.atoms)-1)}
 }
 
-func (r *exprRewriter) isConst(x ast.Expr) bool {
+func (r *c20ExprRewriter) isConst(x ast.Expr) bool {
 	t := &translator{f: r.f, dir: r.dir, vars: map[string]bool{}}
 	_, ok := t.constOf(x)
 	return ok
 }
 
-func (r *exprRewriter) rw(x ast.Expr) ast.Expr {
+func (r *c20ExprRewriter) rw(x ast.Expr) ast.Expr {
 	r.depth++
 	defer func() { r.depth-- }()
 	if r.depth > 64 {
@@ -117,10 +117,10 @@ func (r *exprRewriter) rw(x ast.Expr) ast.Expr {
 	return x // left for the translator to reject
 }
 
-func isBoolExpr(x ast.Expr) bool {
+func c20IsBoolExpr(x ast.Expr) bool {
 	switch x := x.(type) {
 	case *ast.ParenExpr:
-		return isBoolExpr(x.X)
+		return c20IsBoolExpr(x.X)
 	case *ast.UnaryExpr:
 		return x.Op == token.NOT
 	case *ast.BinaryExpr:
@@ -134,8 +134,8 @@ func isBoolExpr(x ast.Expr) bool {
 	return false
 }
 
-func (f *Facts) translateExprs(leanName, dir string, xs []ast.Expr, opt ExprOpt, list bool) []string {
-	r := &exprRewriter{f: f, dir: dir, opt: opt}
+func (f *Facts) c20TranslateExprs(leanName, dir string, xs []ast.Expr, opt C20ExprOpt, list bool) []string {
+	r := &c20ExprRewriter{f: f, dir: dir, opt: opt}
 	if opt.Atoms != nil {
 		r.atoms = *opt.Atoms
 	}
@@ -183,7 +183,7 @@ func (f *Facts) translateExprs(leanName, dir string, xs []ast.Expr, opt ExprOpt,
 	switch {
 	case list:
 		f.Raw(fmt.Sprintf("def %s%s : List Int := [%s]\n", leanName, sig, strings.Join(outs, ", ")))
-	case isBoolExpr(xs[0]):
+	case c20IsBoolExpr(xs[0]):
 		f.Raw(fmt.Sprintf("def %s%s : Bool := %s\n", leanName, sig, outs[0]))
 	default:
 		f.Raw(fmt.Sprintf("def %s%s : Int := %s\n", leanName, sig, outs[0]))
@@ -194,26 +194,26 @@ func (f *Facts) translateExprs(leanName, dir string, xs []ast.Expr, opt ExprOpt,
 	return r.atoms
 }
 
-// TranslateExprAuto emits `def leanName (a0 … : Int) : Bool|Int` for one expression and returns the
+// C20TranslateExpr emits `def leanName (a0 … : Int) : Bool|Int` for one expression and returns the
 // atoms' source texts (parameter i stands for atoms[i]).  A nil or untranslatable expression is
 // emitted as a missing fact (fails closed).
-func (f *Facts) TranslateExprAuto(leanName, dir string, x ast.Expr, opt ExprOpt) []string {
-	return f.translateExprs(leanName, dir, []ast.Expr{x}, opt, false)
+func (f *Facts) C20TranslateExpr(leanName, dir string, x ast.Expr, opt C20ExprOpt) []string {
+	return f.c20TranslateExprs(leanName, dir, []ast.Expr{x}, opt, false)
 }
 
-// TranslateExprListAuto emits `def leanName (a0 … : Int) : List Int := [e1, e2, …]` (one parameter
+// C20TranslateExprList emits `def leanName (a0 … : Int) : List Int := [e1, e2, …]` (one parameter
 // list for all elements), e.g. for the arguments of an append(...) that writes a header.
-func (f *Facts) TranslateExprListAuto(leanName, dir string, xs []ast.Expr, opt ExprOpt) []string {
+func (f *Facts) C20TranslateExprList(leanName, dir string, xs []ast.Expr, opt C20ExprOpt) []string {
 	if len(xs) == 0 {
 		f.Missing(leanName, "empty expression list in "+dir)
 		return nil
 	}
-	return f.translateExprs(leanName, dir, xs, opt, true)
+	return f.c20TranslateExprs(leanName, dir, xs, opt, true)
 }
 
-// IfConds returns the conditions of all `if` statements of a function body in source order
+// C20IfConds returns the conditions of all `if` statements of a function body in source order
 // (including `else if`), descending into nested blocks.
-func IfConds(body *ast.BlockStmt) []ast.Expr {
+func C20IfConds(body *ast.BlockStmt) []ast.Expr {
 	var out []ast.Expr
 	if body == nil {
 		return nil
@@ -227,9 +227,9 @@ func IfConds(body *ast.BlockStmt) []ast.Expr {
 	return out
 }
 
-// LocalConsts collects `const x = e` declarations and `x := e` definitions of a function body whose
-// variable is assigned exactly once (candidates for substitution in TranslateExprAuto).
-func LocalConsts(body *ast.BlockStmt) map[string]ast.Expr {
+// C20LocalConsts collects `const x = e` declarations and `x := e` definitions of a function body whose
+// variable is assigned exactly once (candidates for substitution in C20TranslateExpr).
+func C20LocalConsts(body *ast.BlockStmt) map[string]ast.Expr {
 	defs := map[string]ast.Expr{}
 	count := map[string]int{}
 	if body == nil {
